@@ -33,6 +33,7 @@ use super::*;
 use super::il::*;
 use super::strmap::*;
 use vstd::map::Map;
+broadcast use strmap::axiom_string_key_obeys_cmp_spec;
 //@ mode contracts-only C04
 //@ include units/C04/eval.rs
 //@ mode full
